@@ -15,6 +15,14 @@
 (*      relates the two.                                                   *)
 (*  "dmin" d, X          events respecting the delta-min prefix d (the     *)
 (*      last Len(d) event times), each delayed by 0..X                     *)
+(*  "csporadic" T, J     the COMPACT recogniser used by Sched.tla and        *)
+(*      Ros2Exec.tla for sporadic arrivals with release jitter: a single   *)
+(*      counter d (time since the least consistent arrival time), release  *)
+(*      legal iff d >= T, then d' = min(J, d - T).  Exploring it here      *)
+(*      against the same table shows that it accepts only curve-compliant  *)
+(*      release sequences (Safe) and still attains the bound at every      *)
+(*      window length (Witness), i.e. it is neither too permissive nor     *)
+(*      too restrictive for the world models that rely on it.              *)
 (* A system is a sequence of generators (superposition) and the table eta  *)
 (* on 0..H recorded from the implementation's number_arrivals.             *)
 (*   Safe     the number of released events in the open window <= eta(e)   *)
@@ -32,14 +40,24 @@ G(i) == R.gens[i]
 NG == Len(R.gens)
 H == Len(R.eta) - 1
 MinOf(a, b) == IF a <= b THEN a ELSE b
-Delay(i) == IF G(i).gen = "sporadic" THEN G(i).J + G(i).X ELSE G(i).X
+Delay(i) == IF G(i).gen = "sporadic" THEN G(i).J + G(i).X ELSE IF G(i).gen = "csporadic" THEN 0 ELSE G(i).X
 MaxFly == 4
 
-GenInit(gn) == IF gn.gen = "sporadic" THEN gn.T ELSE [k \in 1..Len(gn.d) |-> gn.d[Len(gn.d)]]
-CanArrive(gn, s) == IF gn.gen = "sporadic" THEN s >= gn.T ELSE \A k \in 1..Len(gn.d) : s[k] >= gn.d[k]
-AfterArrive(gn, s) == IF gn.gen = "sporadic" THEN 0 ELSE [k \in 1..Len(gn.d) |-> IF k = 1 THEN 0 ELSE s[k - 1]]
-GenTick(gn, s) == IF gn.gen = "sporadic" THEN MinOf(gn.T, s + 1)
-                  ELSE [k \in 1..Len(gn.d) |-> MinOf(gn.d[Len(gn.d)], s[k] + 1)]
+GenInit(gn) ==
+    CASE gn.gen = "sporadic" -> gn.T
+      [] gn.gen = "csporadic" -> gn.T + gn.J
+      [] OTHER -> [k \in 1..Len(gn.d) |-> gn.d[Len(gn.d)]]
+CanArrive(gn, s) ==
+    CASE gn.gen \in {"sporadic", "csporadic"} -> s >= gn.T
+      [] OTHER -> \A k \in 1..Len(gn.d) : s[k] >= gn.d[k]
+AfterArrive(gn, s) ==
+    CASE gn.gen = "sporadic" -> 0
+      [] gn.gen = "csporadic" -> MinOf(gn.J, s - gn.T)
+      [] OTHER -> [k \in 1..Len(gn.d) |-> IF k = 1 THEN 0 ELSE s[k - 1]]
+GenTick(gn, s) ==
+    CASE gn.gen = "sporadic" -> MinOf(gn.T, s + 1)
+      [] gn.gen = "csporadic" -> MinOf(gn.T + gn.J, s + 1)
+      [] OTHER -> [k \in 1..Len(gn.d) |-> MinOf(gn.d[Len(gn.d)], s[k] + 1)]
 
 Init ==
     /\ cfg \in 1..Len(Sys)
